@@ -17,10 +17,13 @@ pack/sIIofKK   for EVERY bit-field format (every composition of the total width 
 bytes          unbytify(bytify(n, size, reverse, strict), reverse) == n on the domain
                (n >= 0; strict: n < 256^size), bytify(unbytify(b), len(b)) == b, size <= 4.
 signext        signExtend(x, n) is the two's complement value of the n-bit x, n = 1..64.
-hex            unhexify(hexify(b)) == b (len <= 3 / 4); hexify(unhexify(h)) == h for lower-case
-               even-length hex strings (a small string model: characters are 8-bit code points).
+hex            unhexify(hexify(b)) == b (len <= 3 / 4); hexify(unhexify(h)) == h up to digit case for
+               even-length strings of hex digits (a small string model: characters are 8-bit code points);
+               the same for the bytes-based twins hexize / unhexize.
 bin            unbinize(binize(n, size)) == n, binize(unbinize(u), len(u)) == u, size <= 8 / 12.
 """
+import struct
+
 import z3
 
 from engine import Ob
@@ -30,9 +33,11 @@ from ioflo.aid import byting as B
 PROPERTY = "C40"
 ENGINE = "E2"
 TECHNIQUE = "source->SMT translation (bit-vectors), value merging + shape forking, all formats enumerated"
+LEVEL_TEXT = "source->SMT, bit-vectors: every bit-field format of total width <= 8 plus 117 multi-byte formats (quick) / every format of total width <= 14 (thorough) with symbolic 40-bit field values and buffer contents; bytify/unbytify size <= 4; signExtend n <= 64; hex (<= 3 / 4 bytes) and binary (<= 8 / 12 bits) strings via a small string model; every query unsat, shape forks proved exhaustive"
+LEVEL_NOTE = "oracle = the statement: one-bit fields accept truthiness or low bit, packifyInto return value / new length / gap fill and hex digit case are not demanded; trusted: astsmt translator and its models of str.format, int(s,16), str.replace, struct.pack (validated every run against the real functions incl. the repo test vectors), z3 5.1"
 FUNCTIONS = ["ioflo.aid.byting." + n for n in
              ("packify", "packifyInto", "unpackify", "bytify", "unbytify", "signExtend", "hexify", "unhexify",
-              "binize", "unbinize")]
+              "hexize", "unhexize", "binize", "unbinize")]
 ASSUMPTIONS = [
     "python ints are signed bit-vectors (40 bits for pack/bytes, 72 for signExtend); every + << carries a checked no-overflow side condition",
     "bytearray is modelled as a python list of byte terms; a byte handed to bytearray() must be provably in 0..255 (part of each claim)",
@@ -42,8 +47,8 @@ ASSUMPTIONS = [
     "bytify/unbytify inverse claimed on the domain n >= 0 (and n < 256^size when strict); the truncation of negative or "
     "over-long n is not part of the statement and is not checked",
     "string model for hexify/unhexify/binize/unbinize: '{0:02x}'.format(byte) for 0..255, str(d) for a digit 0..9, "
-    "int(s, 16), int(ch), str.replace(c, ''), ''.join, + , slicing, `in` on characters; validated against the real "
-    "functions on every run; hexize/unhexize (bytes-based twins) are not translated",
+    "int(s, 16), int(ch), str.replace(c, ''), ''.join, + , slicing, `in` on characters, ord of a one-byte slice, "
+    "struct.pack('!B', x) for 0..255; validated against the real functions on every run",
     "the quantifier's 'random wider formats' is replaced by the solver-exhausted bound on the total format width",
 ]
 
@@ -101,8 +106,19 @@ def list_eq(xs, ys):
     return z3.And([eqv(x, y) for x, y in zip(xs, ys)]) if len(xs) else z3.BoolVal(True)
 
 
+def pack_byte(I, args, kw):
+    """struct.pack('!B', x): one byte, ValueError-like struct.error outside 0..255"""
+    if len(args) != 2 or args[0] != "!B" or kw:
+        raise A.Unsupported("struct.pack form %r" % (args[:1],))
+    x = args[1]
+    if A.is_sym(x):
+        I.add_side("struct.pack('!B', x) needs 0 <= x <= 255", z3.And(x >= 0, x <= 255))
+        return [x]
+    return list(struct.pack("!B", x))
+
+
 def interp(sess):
-    return sess.interp(num="bv", bvw=W)
+    return sess.interp(num="bv", bvw=W, intrinsics={struct.pack: pack_byte})
 
 
 def expected_fields(comp, fields, boolean, size=None):
@@ -282,42 +298,41 @@ def validate_pack(sess, comps):
 
 
 def validate_vector(sess, r, comp, vs):
-    if True:
-        fmt = " ".join(str(x) for x in comp)
-        fields = [z3.BitVec("f%d" % i, W) for i in range(len(comp))]
-        for rev in (False, True):
-            paths = A.explore(lambda: interp(sess), lambda I: I.call(B.packify, [fmt, list(fields)], dict(reverse=rev)))
-            for p in paths:
-                sess.absorb(p.interp)
-            sess.validate("packify(%r, reverse=%s)" % (fmt, rev), paths, fields, [tuple(vs)],
-                          lambda *c: list(B.packify(fmt, list(c), reverse=rev)))
-            size = (sum(comp) + 7) // 8
-            bs = [z3.BitVec("b%d" % i, 8) for i in range(size)]
-            try:
-                data = tuple(B.packify(fmt, list(vs), reverse=rev))
-            except Exception:
-                data = tuple([0x5a] * size)
-            for boolean in (False, True):
-                I = interp(sess)
-                un = I.call(B.unpackify, [fmt, [z3.ZeroExt(W - 8, b) for b in bs]], dict(boolean=boolean, reverse=rev))
-                sess.validate("unpackify(%r, boolean=%s, reverse=%s)" % (fmt, boolean, rev), [A.Path([], un, I)], bs,
-                              [data], lambda *c: B.unpackify(fmt, bytearray(c), boolean=boolean, reverse=rev))
-            buf = [z3.BitVec("g%d" % j, 8) for j in range(size + 2)]
+    fmt = " ".join(str(x) for x in comp)
+    fields = [z3.BitVec("f%d" % i, W) for i in range(len(comp))]
+    for rev in (False, True):
+        paths = A.explore(lambda: interp(sess), lambda I: I.call(B.packify, [fmt, list(fields)], dict(reverse=rev)))
+        for p in paths:
+            sess.absorb(p.interp)
+        sess.validate("packify(%r, reverse=%s)" % (fmt, rev), paths, fields, [tuple(vs)],
+                      lambda *c: list(B.packify(fmt, list(c), reverse=rev)))
+        size = (sum(comp) + 7) // 8
+        bs = [z3.BitVec("b%d" % i, 8) for i in range(size)]
+        try:
+            data = tuple(B.packify(fmt, list(vs), reverse=rev))
+        except Exception:
+            data = tuple([0x5a] * size)
+        for boolean in (False, True):
+            I = interp(sess)
+            un = I.call(B.unpackify, [fmt, [z3.ZeroExt(W - 8, b) for b in bs]], dict(boolean=boolean, reverse=rev))
+            sess.validate("unpackify(%r, boolean=%s, reverse=%s)" % (fmt, boolean, rev), [A.Path([], un, I)], bs,
+                          [data], lambda *c: B.unpackify(fmt, bytearray(c), boolean=boolean, reverse=rev))
+        buf = [z3.BitVec("g%d" % j, 8) for j in range(size + 2)]
 
-            def thunk(I):
-                b = [z3.ZeroExt(W - 8, g) for g in buf]
-                ret = I.call(B.packifyInto, [b, fmt, list(fields)], dict(offset=1, reverse=rev))
-                return [ret] + b
+        def thunk(I):
+            b = [z3.ZeroExt(W - 8, g) for g in buf]
+            ret = I.call(B.packifyInto, [b, fmt, list(fields)], dict(offset=1, reverse=rev))
+            return [ret] + b
 
-            def real(*c):
-                b = bytearray(c[len(fields):])
-                ret = B.packifyInto(b, fmt, list(c[:len(fields)]), offset=1, reverse=rev)
-                return [ret] + list(b)
-            paths = A.explore(lambda: interp(sess), thunk)
-            for p in paths:
-                sess.absorb(p.interp)
-            sess.validate("packifyInto(%r)" % fmt, paths, fields + buf,
-                          [tuple(vs) + tuple(r.randrange(256) for _ in buf)], real)
+        def real(*c):
+            b = bytearray(c[len(fields):])
+            ret = B.packifyInto(b, fmt, list(c[:len(fields)]), offset=1, reverse=rev)
+            return [ret] + list(b)
+        paths = A.explore(lambda: interp(sess), thunk)
+        for p in paths:
+            sess.absorb(p.interp)
+        sess.validate("packifyInto(%r)" % fmt, paths, fields + buf,
+                      [tuple(vs) + tuple(r.randrange(256) for _ in buf)], real)
 
 
 def wide_sample():
@@ -419,22 +434,33 @@ def ob_signext(sess, params):
 
 # ----------------------------------------------------------------------------- hexify / unhexify
 
-def lower_hex(c):
-    return z3.Or(z3.And(z3.UGE(c, 48), z3.ULE(c, 57)), z3.And(z3.UGE(c, 97), z3.ULE(c, 102)))
+def hex_digit(c):
+    return z3.Or(z3.And(z3.UGE(c, 48), z3.ULE(c, 57)), z3.And(z3.UGE(c, 97), z3.ULE(c, 102)),
+                 z3.And(z3.UGE(c, 65), z3.ULE(c, 70)))
+
+
+def lower(c):
+    return z3.If(z3.And(z3.UGE(c, 65), z3.ULE(c, 70)), c + 32, c)
 
 
 def ob_hex(sess, params):
+    for enc, dec, conv in ((B.hexify, B.unhexify, bytearray), (B.hexize, B.unhexize, bytes)):
+        ob_hex_pair(sess, params, enc, dec, conv)
+
+
+def ob_hex_pair(sess, params, HEXIFY, UNHEXIFY, conv):
     r = A.rng(sess.params, 43)
     for k in range(0, params["kmax"] + 1):
         bs = [z3.BitVec("b%d" % i, 8) for i in range(k)]
 
         def thunk(I):
-            h = I.call(B.hexify, [[z3.ZeroExt(W - 8, b) for b in bs]])
-            return h, I.call(B.unhexify, [h])
+            h = I.call(HEXIFY, [[z3.ZeroExt(W - 8, b) for b in bs]])
+            back = I.call(UNHEXIFY, [h])
+            return h, (list(back) if isinstance(back, (bytes, bytearray)) else back)
         paths = A.explore(lambda: interp(sess), thunk)
-        what = "unhexify(hexify(b)), len(b)=%d" % k
+        what = "%s(%s(b)), len(b)=%d" % (UNHEXIFY.__name__, HEXIFY.__name__, k)
         sess.validate(what, paths, bs, [tuple(r.randrange(256) for _ in bs) for _ in range(6)] + [tuple([0xab] * k)],
-                      lambda *c: [B.hexify(bytearray(c)), list(B.unhexify(B.hexify(bytearray(c))))])
+                      lambda *c: [HEXIFY(conv(c)), list(UNHEXIFY(HEXIFY(conv(c))))])
         if sess.prove_exhaustive(paths, what):
             for p in paths:
                 h, back = p.result
@@ -442,29 +468,30 @@ def ob_hex(sess, params):
                 sess.prove(KEY_HEX, z3.And([is_byte(x) for x in back] + [list_eq(back, want)]) if isinstance(back, list) else False,
                            assume=p.assume, defs=p.interp.defs, side=p.interp.side,
                            wrong=eqv(back[0], want[0] ^ 1) if (k and len(back)) else z3.BoolVal(len(back) == k + 1),
-                           vals=lambda m: dict(op="hexify", b=[A.model_value(m, b) & 0xff for b in bs]), what=what)
+                           vals=lambda m: dict(op="hexify", fn=HEXIFY.__name__, b=[A.model_value(m, b) & 0xff for b in bs]), what=what)
         # the other direction on the canonical domain: lower-case hex digits, even length
         cs = [z3.BitVec("c%d" % i, 8) for i in range(2 * k)]
-        dom = [lower_hex(c) for c in cs]
+        dom = [hex_digit(c) for c in cs]
 
         def thunk2(I):
-            b = I.call(B.unhexify, [A.SymStr(list(cs)) if cs else ""])
-            return I.call(B.hexify, [b])
+            b = I.call(UNHEXIFY, [A.SymStr(list(cs)) if cs else ""])
+            return I.call(HEXIFY, [b])
         make = lambda: _with_assume(interp(sess), dom)
         paths = A.explore(make, thunk2)
-        what = "hexify(unhexify(h)), len(h)=%d" % (2 * k)
-        hexd = "0123456789abcdef"
+        what = "%s(%s(h)), len(h)=%d" % (HEXIFY.__name__, UNHEXIFY.__name__, 2 * k)
+        hexd = "0123456789abcdefABCDEF"
         sess.validate(what, paths, cs, [tuple(ord(r.choice(hexd)) for _ in cs) for _ in range(6)],
-                      lambda *c: B.hexify(B.unhexify("".join(chr(x) for x in c))))
+                      lambda *c: HEXIFY(UNHEXIFY("".join(chr(x) for x in c))))   # exact (case included) vs the real code
         if not sess.prove_exhaustive(paths, what, given=dom):
             continue
         for p in paths:
             h2 = p.result
             ok = isinstance(h2, (str, A.SymStr)) and len(h2) == 2 * k
-            claim = z3.And([A.SymStr.of(h2).code(i) == cs[i] for i in range(2 * k)]) if ok and k else z3.BoolVal(ok)
+            # equal up to the case of the hex digits (which case hexify emits is not in the statement)
+            claim = z3.And([lower(A.SymStr.of(h2).code(i)) == lower(cs[i]) for i in range(2 * k)]) if ok and k else z3.BoolVal(ok)
             sess.prove(KEY_HEX, claim, assume=p.assume, defs=p.interp.defs, side=p.interp.side,
-                       wrong=(A.SymStr.of(h2).code(0) == cs[0] + 1) if ok and k else z3.BoolVal(not ok),
-                       vals=lambda m: dict(op="unhexify", h="".join(chr(A.model_value(m, c) & 0xff) for c in cs)), what=what)
+                       wrong=(lower(A.SymStr.of(h2).code(0)) == lower(cs[0]) + 1) if ok and k else z3.BoolVal(not ok),
+                       vals=lambda m: dict(op="unhexify", fn=HEXIFY.__name__, h="".join(chr(A.model_value(m, c) & 0xff) for c in cs)), what=what)
 
 
 def _with_assume(I, dom):
@@ -602,17 +629,20 @@ def replay(vals, params):
             if got != want:
                 return ("fail", KEY_SIGN, "signExtend(%d, %d) -> %d, two's complement value is %d" % (x, n, got, want))
             return ("pass", KEY_SIGN, "")
+        if op in ("hexify", "unhexify"):
+            ize = vals.get("fn") == "hexize"
+            enc, dec, conv = (B.hexize, B.unhexize, bytes) if ize else (B.hexify, B.unhexify, bytearray)
         if op == "hexify":
             b = vals["b"]
-            back = B.unhexify(B.hexify(bytearray(b)))
+            back = dec(enc(conv(b)))
             if list(back) != list(b):
-                return ("fail", KEY_HEX, "unhexify(hexify(%s)=%r) -> %s" % (b, B.hexify(bytearray(b)), list(back)))
+                return ("fail", KEY_HEX, "%s(%s(%s)=%r) -> %s" % (dec.__name__, enc.__name__, b, enc(conv(b)), list(back)))
             return ("pass", KEY_HEX, "")
         if op == "unhexify":
             h = vals["h"]
-            back = B.hexify(B.unhexify(h))
-            if back != h:
-                return ("fail", KEY_HEX, "hexify(unhexify(%r)=%s) -> %r" % (h, list(B.unhexify(h)), back))
+            back = enc(dec(h))
+            if back.lower() != h.lower():
+                return ("fail", KEY_HEX, "%s(%s(%r)=%s) -> %r" % (enc.__name__, dec.__name__, h, list(dec(h)), back))
             return ("pass", KEY_HEX, "")
         if op == "binize":
             n, size = vals["n"], vals["size"]
@@ -656,7 +686,7 @@ def obligations(tier):
     obs.append(Ob("signext", run(ob_signext), params=dict(x, nmax=64), kind="e2", replay=replay, budget=300,
                   bounds=dict(n="1..64", x="all n-bit values")))
     obs.append(Ob("hex", run(ob_hex), params=dict(x, kmax=4 if t else 3), kind="e2", replay=replay, budget=600,
-                  bounds=dict(bytes="0..%d" % (4 if t else 3), hex_string="lower-case, even length up to %d" % (8 if t else 6))))
+                  bounds=dict(bytes="0..%d" % (4 if t else 3), hex_string="hex digits of either case, even length up to %d" % (8 if t else 6))))
     obs.append(Ob("bin", run(ob_bin), params=dict(x, smax=12 if t else 8), kind="e2", replay=replay, budget=600,
                   bounds=dict(size="1..%d" % (12 if t else 8))))
     return obs
